@@ -20,6 +20,7 @@ RULE = (
     "placed before/inside/after partially delivered lines, EOF at the end - for the server loop also in the same instant as the last segment -, "
     "a write program in which chosen writes meet back-pressure until they time out: the peer must only see complete lines of written messages, in order). Read time limits come from the timeout argument or from an enclosing asyncio.timeout(). A reference model predicts the outcome of every "
     "read (message k / TimeoutError / end-of-stream b''). Short streams additionally get every single split point "
+    "Also: an idle second connection sitting in a read, request_unsafe() round trips with a slow hand-over, a server connection that is above its high-water mark for good, a silent visitor in the real-socket shard. "
     "exhaustively. Non-trivial: a split inside a line, >=2 lines in one segment, or a timeout expiring inside a partially "
     "delivered line. Distinct by (messages, segmentation, read program)."
 )
